@@ -200,7 +200,7 @@ func runMethods(run *vr.Run, c *checker) {
 			continue
 		}
 		called++
-		vals, wires, kind := x.answers(d, run.Thorough())
+		vals, wires, kind := x.answers(d, true)
 		if len(vals) == 0 {
 			run.Violation("method|"+m.Name+"|no-answer-constructible|"+kind, fmt.Sprintf("%s: no value of result type %s could be built from registered constructors", m.Name, kind), map[string]any{"ID": m.Name})
 			continue
